@@ -71,8 +71,13 @@ def gen_plan(seed, tier):
   steps = []
   if w == "w1":
     for i in range(r.randint(2, 3)):
-      steps.append({"thread": i, "calls": [r.pick(["callLater", "call_later",
-                                                   "raiseLater"])
+      forms = ["callLater", "call_later", "raiseLater"]
+      if r.chance(0.35):
+        # a brand-new task handed to the scheduler from this thread (every
+        # form the API offers; "always safe" for a new task)
+        forms = forms + ["start", "start_fast", "fast_schedule",
+                         "fast_schedule_first", "schedule_first"]
+      steps.append({"thread": i, "calls": [r.pick(forms)
                                            for _ in range(r.randint(1, 3))]})
     if r.chance(0.4):
       steps.append({"task": True, "calls": ["callLater"] * r.randint(1, 2)})
@@ -206,6 +211,7 @@ def _w1(sim, world, eng, plan):
   sched = world.sched
   log = []          # (who, j, on_sched_thread, t_exec, t_submit, seq)
   submitted = {}    # (who, j) -> (t_submit, seq)
+  unordered = set() # new tasks: no order promised relative to anything
   total = [0]
 
   class Ev(Event):
@@ -230,8 +236,28 @@ def _w1(sim, world, eng, plan):
       sched.callLater(cb, who, j)
     elif how == "call_later":
       core.call_later(cb, who, j)
-    else:
+    elif how == "raiseLater":
       core.raiseLater(src, Ev, who, j)
+    else:
+      unordered.add((who, j))
+      sim.probes["new_task_from_thread"] += 1
+
+      class One(R.Task):
+        def run(self_):
+          cb(who, j)
+          return
+          yield 0
+      t = One()
+      if how == "start":
+        t.start()
+      elif how == "start_fast":
+        t.start(fast=True)
+      elif how == "fast_schedule":
+        sched.fast_schedule(t)
+      elif how == "fast_schedule_first":
+        sched.fast_schedule(t, first=True)
+      else:
+        sched.schedule(t, True)
 
   world.start_scheduler()
   _idle_tasks(world, cfg.get("idle_tasks", 0))
@@ -272,7 +298,8 @@ def _w1(sim, world, eng, plan):
       raise Violation("w1/twice", "function %r ran %d times" % (k, n))
   per = {}
   for who, j, on_sched, t_exec, t_sub, seq in log:
-    per.setdefault(who, []).append(j)
+    if (who, j) not in unordered:
+      per.setdefault(who, []).append(j)
   for who, js in per.items():
     if js != sorted(js):
       raise Violation("w1/order", "thread %s submitted 0..%d in order but "
